@@ -1875,7 +1875,14 @@ class Context:
             if isinstance(src, JSArray):
                 items = enumerate(src._elements)
             else:
-                items = src._properties.items()
+                # Own data properties, in the order scripts see them (a key that
+                # was an accessor and became a data property keeps its position)
+                order = src._order if src._order is not None else src._properties
+                items = [
+                    (key, src._properties[key])
+                    for key in list(order)
+                    if key in src._properties
+                ]
             for key, item in items:
                 child = shell(item)
                 if child is None:
